@@ -179,6 +179,9 @@ class AFS:
             if f.kind == "eperm":
                 self.log.append(("EPERM",) + entry)
                 raise PermissionError(errno.EACCES, "Permission denied", entry[1])
+            if f.kind == "shortret":
+                self.log.append(entry)
+                return "shortret" if entry[0] == "write" else None
             if f.kind in ("enospc", "short"):
                 if entry[0] == "write":
                     return f.kind
@@ -219,7 +222,8 @@ class AFS:
             self._op("open-" + m, r)
             if r not in self.files or m in ("w", "w+"):
                 self.files[r] = Node(ABuf.of([]))
-            return AWFile(self, r, m)
+            buffering = kw.get("buffering", a[0] if a else -1)
+            return AWFile(self, r, m, unbuffered=(buffering == 0))
         raise Unsupported("open mode %r" % mode)
 
     def remove(self, p):
@@ -542,9 +546,10 @@ class AFile:
 
 
 class AWFile:
-    def __init__(self, fs, path, mode):
+    def __init__(self, fs, path, mode, unbuffered=False):
         self.fs, self.path, self.mode, self.closed = fs, path, mode, False
         self.name = path
+        self.unbuffered = unbuffered
 
     def write(self, data):
         if self.closed:
@@ -557,6 +562,17 @@ class AWFile:
         node = self.fs.files.get(self.path)
         if node is None:        # unlinked while open: bytes go nowhere visible
             return 0
+        if fault == "shortret":
+            if self.unbuffered:
+                # a raw (unbuffered) write may store fewer bytes than given and say so in its return value
+                pre = _strict_prefix(data)
+                node.content.extend(pre)
+                self.fs.log.append(("SHORT-RETURN", self.path))
+                try:
+                    return pre.size()
+                except Unsupported:
+                    return 1
+            fault = None        # buffered writers retry until everything is written
         if fault in ("enospc", "short"):
             node.content.extend(_strict_prefix(data))
             if fault == "enospc":
